@@ -162,7 +162,7 @@ fn definite_comparison(
         Some(idx) => idx,
         None => return false,
     };
-    if col_idx >= row_group.num_columns() {
+    if col_idx >= row_group.num_columns() || has_unscaled_stats(schema, col_idx) {
         return false;
     }
     let col_meta = row_group.column(col_idx);
@@ -255,7 +255,7 @@ fn check_comparison(
     };
 
     // Get statistics for this column in the row group
-    if col_idx >= row_group.num_columns() {
+    if col_idx >= row_group.num_columns() || has_unscaled_stats(schema, col_idx) {
         return true;
     }
     let stats = match row_group.column(col_idx).statistics() {
@@ -276,6 +276,13 @@ fn check_comparison(
         ScalarValue::Timestamp(val) => check_i64_stats(stats, effective_op, *val),
         _ => true, // Unsupported type, conservative
     }
+}
+
+/// DECIMAL(p,s) columns stored as INT32/INT64 carry UNSCALED integers in their
+/// footer statistics (12.34 at scale 2 is 1234) while predicate literals are
+/// in value units, so their min/max can neither prune nor prove a row group.
+fn has_unscaled_stats(schema: &SchemaRef, col_idx: usize) -> bool {
+    schema.field(col_idx).data_type().is_decimal()
 }
 
 /// Flip a comparison operator (for when literal is on the left side)
